@@ -92,6 +92,13 @@ Definition verdict (c : ccase) : N :=
   (* the generator's claim of well-formedness must be the hypothesis of the C04 theorems *)
   let wf_claim_bad := c_wf c && negb (forallb (fun s => wf_segb s && wf_peersb s) (c_cores c ++ c_noncores c)) in
   let mismatch := mismatch || wf_claim_bad in
+  (* hypothesis of combine_sorted_partial, checked on the model's candidates of this case *)
+  let sorted_hyp_bad :=
+    match candidate_paths (case_hid c) hfp_struct ord_id_v ord_id_e (c_src c) (c_dst c) (c_cores c) (c_noncores c) with
+    | Ok cand => negb (fp_cost_consistentb cand)
+    | _ => false
+    end in
+  let mismatch := mismatch || sorted_hyp_bad in
   let bad := c_panic c
              || negb (forallb self_consistent (c_out c)) || negb (bytes0_decodes c)
              || (c_wf c && negb (c04_ok c)) in
